@@ -70,9 +70,20 @@ theorem setWidth32_ofInt64 (x : Int) : BitVec.setWidth 32 (BitVec.ofInt 64 x) = 
 
 /-! ### inward conversions -/
 
+/-- the two arms of `fromS64` / `fromS32`, however the C++ spells them (`c ? x = a + p : x = a`, `x = a; if (c) x += p;`,
+    either operand order of the wrapping addition, either polarity of the sign test): every `if` of both sides is split and
+    each case is an identity, commutativity of `+`, or contradicts the sign of the argument.  (`with_reducible`: a FAILING
+    unification of two sums with 2^64-sized literals runs into the recursion limit, which `first` cannot catch.) -/
+macro "sign_arms" : tactic => `(tactic| (
+  simp only [BitVec.msb_eq_toInt, decide_eq_true_eq] <;>
+  (split_ifs <;> first
+    | with_reducible rfl
+    | with_reducible exact BitVec.add_comm _ _
+    | (exfalso; omega))))
+
 theorem fromS64_e_gen_eq (x : BitVec 64) : fromS64__ei x = Model.fromS64 x := by
   unfold fromS64__ei Model.fromS64
-  rw [BitVec.msb_eq_toInt]
+  sign_arms
 
 theorem fromS64_r_gen_eq (x : BitVec 64) : fromS64__ri x = Model.fromS64 x := by
   unfold fromS64__ri
@@ -80,15 +91,18 @@ theorem fromS64_r_gen_eq (x : BitVec 64) : fromS64__ri x = Model.fromS64 x := by
 
 theorem fromS32_e_gen_eq (x : BitVec 32) : fromS32__ei x = Model.fromS32 x := by
   unfold fromS32__ei Model.fromS32
-  rw [BitVec.msb_eq_toInt]
+  sign_arms
 
 theorem fromS32_r_gen_eq (x : BitVec 32) : fromS32__ri x = Model.fromS32 x := by
   unfold fromS32__ri
   exact fromS32_e_gen_eq x
 
+/-- the prime as an `mpz_class` built from the 64-bit constant (`const uint64_t prime = (uint64_t)GOLDILOCKS_PRIME`) -/
+theorem ofU64_P : Mpz.ofU64 18446744069414584321#64 = (18446744069414584321 : Int) := by decide
+
 theorem fromScalar_e_gen_eq (x : Int) : fromScalar__eZ x = Model.fromScalar x := by
   unfold fromScalar__eZ Model.fromScalar Mpz.getUi Model.getUi
-  rw [P_int]
+  simp only [ofU64_P, P_int]
 
 theorem fromScalar_r_gen_eq (x : Int) : fromScalar__rZ x = Model.fromScalar x := by
   unfold fromScalar__rZ
@@ -104,7 +118,7 @@ theorem fromString_e_gen_eq (fuel : Nat) (s : String) (radix : Int) :
   | some v =>
     show some (Mpz.getUi _) = some (Model.fromScalar v)
     unfold Model.fromScalar Mpz.getUi Model.getUi
-    rw [P_int]
+    simp only [ofU64_P, P_int]
 
 theorem fromString_r_gen_eq (fuel : Nat) (s : String) (radix : Int) :
     fromString__rSi fuel s radix = Model.fromString s radix.toNat := by
@@ -126,7 +140,7 @@ theorem toS64_i_gen_eq (r a : BitVec 64) : toS64__iE r a = BitVec.ofInt 64 (Mode
   have hlt := toU64_lt a
   have hh : (P - 1) / 2 = 9223372034707292160 := by decide
   have hP : P = 18446744069414584321 := rfl
-  simp only [hh, hP, decide_eq_true_eq]
+  simp only [hh, hP, decide_eq_true_eq, Bool.not_eq_true', decide_eq_false_iff_not, Bool.and_eq_true, Bool.or_eq_true]
   generalize (toU64__rE a).toNat = n at hlt
   split_ifs <;> first
     | (exfalso; omega)
@@ -158,7 +172,7 @@ theorem toS32_gen_eq (r : BitVec 32) (a : BitVec 64) :
   unfold Gen.ConvGen.toS32 Model.toS32 Mpz.ofU64
   have hlt := toU64_lt a
   have hP : P = 18446744069414584321 := rfl
-  simp only [hP, decide_eq_true_eq]
+  simp only [hP, decide_eq_true_eq, Bool.not_eq_true', decide_eq_false_iff_not, Bool.and_eq_true, Bool.or_eq_true]
   generalize (toU64__rE a).toNat = n at hlt
   split_ifs <;> first
     | (exfalso; omega)
